@@ -315,6 +315,66 @@ class Emit:
         if v.t.k == 'int': return s.sx(v)
         return v.c
     # ---- emit
+    def analyse_indirect(s, reach):
+        """vtable slots and address-taken functions: indirect calls are dispatched over a PRECISE candidate set (CBMC's own
+        function-pointer removal matches by C signature, which is hopeless once every pointer is void*)"""
+        m = s.m; s.vslots = {}; s.addr_taken = set()
+        fre = r'@"(?:[^"\\\\]|\\\\.)*"|@[-a-zA-Z$._0-9]+'
+        for name, ln in m.globals.items():
+            if name not in s.used_globals: continue
+            init = ln.split('=', 1)[1]
+            if name.startswith('@_ZTV') or name.startswith('@"_ZTV'):
+                for arr in re.findall(r'\[\d+ x i8\*\] \[(.*?)\](?=\s*[,}])', init):
+                    ents = []; depth = 0; cur = ''
+                    for ch in arr:
+                        if ch == '(': depth += 1
+                        if ch == ')': depth -= 1
+                        if ch == ',' and depth == 0: ents.append(cur); cur = ''
+                        else: cur += ch
+                    ents.append(cur)
+                    for i, e in enumerate(ents):
+                        fs = [x for x in re.findall(fre, e) if x in m.funcs or x in m.decls]
+                        if i >= 2 and fs: s.vslots.setdefault(i - 2, set()).add(fs[0])
+            else:
+                for x in re.findall(fre, init):
+                    if x in m.funcs or x in m.decls: s.addr_taken.add(x)
+        for fname_, f in m.funcs.items():
+            if fname_ not in reach or f.body is None: continue
+            for ln in f.body:
+                for mm in re.finditer('(' + fre + r')(?!\()', ln):
+                    x = mm.group(1)
+                    if (x in m.funcs or x in m.decls) and not re.search(r'\b(call|invoke)\b[^@]*' + re.escape(x) + r'$', ln[:mm.end()]): s.addr_taken.add(x)
+
+    def shape(s, rt, argts):
+        def k(t):
+            t = s.res(t) if t.k == 'named' else t
+            return 'p' if t.k == 'ptr' else tstr(t)
+        return k(rt) + '(' + ','.join(k(t) for t in argts) + ')'
+
+    def candidates(s, f, callee, rt, args):
+        """functions an indirect call through SSA register `callee` may reach, or None if unknown"""
+        defs = f.defs
+        d = defs.get(callee, '')
+        mm = re.match(r'load .*, .*\*\* (%\S+?),', d + ',')
+        slot = None
+        if mm:
+            g = defs.get(mm.group(1), '')
+            m2 = re.match(r'getelementptr inbounds .*\)\*\* (%\S+), i64 (\d+)$', g)
+            if m2 and re.match(r'load .*\)\*\*, .*\)\*\*\* ', defs.get(m2.group(1), '')): slot = int(m2.group(2))
+            elif re.match(r'load .*\)\*\*, .*\)\*\*\* ', g): slot = 0
+        argts = [a.t for a in args if a is not None]
+        def fd_of(n): return s.m.funcs.get(n) or s.m.decls.get(n)
+        if slot is not None:
+            # virtual call: same slot in some vtable, same shape ('this' differs between base and derived classes)
+            want = s.shape(rt, argts)
+            c = sorted(n for n in s.vslots.get(slot, ()) if fd_of(n) is not None and not fd_of(n).va and s.shape(fd_of(n).ret, [p[0] for p in fd_of(n).params]) == want)
+            if c: return c
+        # plain function pointer: address-taken functions of EXACTLY the called LLVM type (typed pointers make this precise)
+        exact = lambda r_, ts_: tstr(r_) + '(' + ','.join(tstr(t) for t in ts_) + ')'
+        want = exact(rt, argts)
+        c = sorted(n for n in s.addr_taken if fd_of(n) is not None and not fd_of(n).va and exact(fd_of(n).ret, [p[0] for p in fd_of(n).params]) == want)
+        return c or None
+
     def emit(s):
         m = s.m; out = []
         body = []
@@ -325,6 +385,7 @@ class Emit:
         s.entries = list(s.entries) + s.ctors + [n for n in m.funcs if n.startswith('@vh_')]   # vh_*: harness hooks called from rt/ models
         reach = s.reachable()
         s.translated = [n for n in reach if n in m.funcs and n not in s.stubs]
+        s.analyse_indirect(set(reach))
         protos = []
         for name in reach:
             f = m.funcs.get(name)
@@ -398,7 +459,7 @@ class Emit:
             if ext or p.peek()[0] == 'eof' or p.at(','):
                 if ext and (name.startswith('@_ZTVN10__cxxabiv') or name == '@__dso_handle'): ext = False   # RTTI helper vtables: only their address is used
                 if cid(name) in ('stdout', 'stderr', 'stdin'):
-                    out.append('#ifdef __CPROVER__\nextern %s %s;\n#endif' % (ct, s.gname(name))); continue   # natively <stdio.h> declares them
+                    out.append('extern %s %s;' % (ct, s.gname(name))); continue
                 out.append('extern %s %s;' % (ct, s.gname(name)) if ext else '%s %s;' % (ct, s.gname(name))); continue
             v = s.parse_val(p, t, None)
             init = v.c
@@ -472,6 +533,11 @@ class Emit:
                 cur = ['%d' % nparam if all(nm is None or re.fullmatch(r'%\d+', nm) for _, nm, _ in f.params) else 'entry', []]; blocks.append(cur)
             if (ln.startswith('    ') or ln.strip().startswith(']')) and cur[1]: cur[1][-1] += ' ' + ln.strip()
             else: cur[1].append(ln.strip())
+        f.defs = {}
+        for bname_, ins_ in blocks:
+            for ln_ in ins_:
+                md_ = re.match(r'(%"(?:[^"\\]|\\.)*"|%[-a-zA-Z$._0-9]+) = (.*?)(?:, align \d+)?(?:, ![-a-zA-Z$._0-9]+ !\d+)*$', ln_)
+                if md_: f.defs[md_.group(1)] = md_.group(2)
         # lay the blocks out in reverse post-order of the CFG: then only genuine loop back-edges are backward gotos
         # (CBMC treats EVERY backward goto as a loop to unwind; LLVM's own block order has many backward non-loop jumps)
         if len(blocks) > 2:
@@ -523,7 +589,7 @@ class Emit:
             for ln in ins:
                 if ' = phi ' in ln: continue
                 try:
-                    c = s.emit_ins(f, ln, regs, allocas, bname, edge)
+                    c = s.emit_ins(f, ln, regs, allocas, bname, edge); s.prev_ins = ln
                 except Exception as e:
                     raise type(e)('%s\n  in %s: %s' % (e, f.name, ln))
                 if c: code.append('  ' + c)
@@ -582,6 +648,15 @@ class Emit:
             if atomic:
                 order = p.next()[1]
                 return 'vra_store(%s, (uint64_t)%s, %d, VRA_%s);' % (a.c, v.c, s.sizeof_bits(t), order)
+            # memcpy of a pointer lowered by LLVM to an i64 load + i64 store into a pointer-typed slot: copy it as a POINTER
+            # (pointer -> integer -> pointer laundering makes CBMC lose track of what the pointer points to)
+            if t.k == 'int' and t.bits == 64 and v.c.startswith('r_') and a.c.startswith('r_'):
+                dq = f.defs.get('%' + a.c[2:], f.defs.get('%"' + a.c[2:] + '"', ''))
+                dv = f.defs.get('%' + v.c[2:], '')
+                mq = re.match(r'bitcast .*\*\* (%\S+) to i64\*$', dq)
+                mv = re.match(r'load i64, i64\* (%[-a-zA-Z$._0-9]+)$', dv)
+                if mq and mv and getattr(s, 'prev_ins', '').startswith('%' + v.c[2:] + ' = load i64'):
+                    return '*(void**)%s = *(void**)r_%s;' % (a.c, cid(mv.group(1)))
             return '*(%s*)%s = %s;' % (s.ctype(t), a.c, v.c)
         if op == 'atomicrmw':
             p.eat('volatile'); rop = p.next()[1]; pt = parse_type(p); a = s.parse_val(p, pt, f); p.expect(','); t = parse_type(p); v = s.parse_val(p, t, f); order = p.next()[1]
@@ -684,6 +759,13 @@ class Emit:
                     c = '%s(%s)' % (cn, ', '.join(a.c for a in args))
             else:
                 fp = cv.c if callee is None else 'r_' + cid(callee)
+                cands = s.candidates(f, callee, rt, args) if callee is not None else None
+                if cands:
+                    al = ', '.join(a.c for a in args)
+                    isv = s.ctype(rt) == 'void' or not dst
+                    chain = ' else '.join('if (%s == (void*)%s) { %s%s(%s); }' % (fp, s.fname(n), '' if isv else dst + ' = ', s.fname(n), al) for n in cands)
+                    if not isv: regs[dst] = rt
+                    return chain + ' else { VLL_BADFP(); }' + post
                 c = '((%s(*)(%s))%s)(%s)' % (s.ctype(rt), ', '.join(s.ctype(a.t) for a in args) or 'void', fp, ', '.join(a.c for a in args))
             return (setd(rt, c) if dst and s.ctype(rt) != 'void' else c + ';') + post
         if op == 'landingpad':
@@ -717,6 +799,10 @@ class Emit:
         if n.startswith('cttz.'): return 'vll_cttz%d(%s)' % (args[0].t.bits, args[0].c)
         if n.startswith('ctpop.'): return 'vll_ctpop%d(%s)' % (args[0].t.bits, args[0].c)
         if n.startswith('bswap.'): return 'vll_bswap%d(%s)' % (args[0].t.bits, args[0].c)
+        if n.startswith('usub.sat.'): return '(%s > %s ? (%s)(%s - %s) : (%s)0)' % (args[0].c, args[1].c, s.ctype(rt), args[0].c, args[1].c, s.ctype(rt))
+        if n.startswith('uadd.sat.'): return '((%s)(%s + %s) < %s ? (%s)~(%s)0 : (%s)(%s + %s))' % (s.ctype(rt), args[0].c, args[1].c, args[0].c, s.ctype(rt), s.ctype(rt), s.ctype(rt), args[0].c, args[1].c)
+        if n == 'fabs.f64': return '__builtin_fabs(%s)' % args[0].c
+        if n == 'fabs.f32': return '__builtin_fabsf(%s)' % args[0].c
         if n == 'trap': return 'VLL_TRAP()'
         if n.startswith('eh.typeid.for'): return 'vll_typeid_for(%s)' % args[0].c
         if n.startswith('fshl.') or n.startswith('fshr.'): return 'vll_%s%d(%s,%s,%s)' % (n[:4], args[0].t.bits, args[0].c, args[1].c, args[2].c)
@@ -727,7 +813,7 @@ import os
 BYTELOOPS = os.environ.get('VLL_BYTELOOPS') == '1'   # variable-length memset/memcpy as bounded byte loops instead of CBMC's built-ins
 LIBCGLOBALS = {'__libc_single_threaded', 'stdout', 'stderr', 'stdin', 'environ', 'timezone', 'daylight'}   # real libc objects: declared extern, no prefix
 RTGLOBALS = {'vll_alloc_forbidden', 'vra_loc_overflow_prunes', 'vll_fatal_ok', 'vll_fatal_seen', 'vll_exc', 'vll_exc_obj', 'vll_exc_type'}
-BUILTIN = {'bcmp', '__CPROVER_assume', '__CPROVER_assert', 'malloc', 'free', 'calloc', 'realloc', 'memcpy', 'memset', 'memmove', 'strlen', 'strnlen', 'memchr', 'memcmp', 'strcmp', 'strncmp', 'strcpy', 'strncpy', 'strchr', 'strrchr', 'strstr', 'exit', 'abs', 'labs',
+BUILTIN = {'strtoul', 'strtol', 'strtoull', 'strtoll', 'strtod', 'strtof', 'getenv', 'atoi', 'atol', 'qsort', 'bsearch', 'rand', 'srand', 'atexit', 'system', 'memrchr', 'strdup', 'strerror', 'bcmp', '__CPROVER_assume', '__CPROVER_assert', 'malloc', 'free', 'calloc', 'realloc', 'memcpy', 'memset', 'memmove', 'strlen', 'strnlen', 'memchr', 'memcmp', 'strcmp', 'strncmp', 'strcpy', 'strncpy', 'strchr', 'strrchr', 'strstr', 'exit', 'abs', 'labs',
            'vnd_u64', 'vnd_range', 'vassume', 'vassert_at', 'vwitness_at', 'vobs', 'vll_abort', 'vll_assert_fail', 'vll_printf', 'vll_fprintf', 'vll_puts',
            'vll_forbidden', 'vll_rdtsc', 'vll_cxa_atexit', 'vll_guard_acquire', 'vll_guard_release', 'vll_pure_virtual',
            'vra_load', 'vra_store', 'vra_rmw', 'vra_cas', 'vra_fence', 'vra_set_thread', 'vra_thread', 'vra_na_read', 'vra_na_write', 'vra_forget', 'vra_register', 'vra_stale_reads', 'vll_qpool_set'}
